@@ -132,6 +132,78 @@ theorem fields_eq_iff_windows_eq (t : Tape) (pos : Nat) (ns : List Nat) (i j : N
       seg t (offsetOf pos ns i) ns[i] = seg t (offsetOf pos ns j) ns[j] := by
   rw [fields_getElem t pos ns i hi, fields_getElem t pos ns j hj]
 
+/-! ### counting form of uniformity
+
+For fixed draw lengths `ns`, the map (tape window) ↦ (tuple of random fields) is a bijection between
+byte strings of length `ns.sum` and tuples of byte strings of lengths `ns`: every tuple of field values
+arises from exactly one window.  Hence a uniformly distributed window gives uniformly distributed,
+independent fields — the distributional clause of C20 under `H_rand`, stated without probability theory. -/
+
+/-- a finite window read as a tape (bytes beyond it are irrelevant by `fields_congr`) -/
+def tapeOfWindow (w : Bytes) : Tape := fun i => w.getD i 0
+
+theorem seg_tapeOfWindow (w : Bytes) : seg (tapeOfWindow w) 0 w.length = w := by
+  apply List.ext_getElem
+  · simp [seg_length]
+  · intro i h1 h2
+    simp [seg, tapeOfWindow, List.getD, List.getElem?_eq_getElem h2]
+
+/-- injective: the fields determine the window -/
+theorem fields_window_injective (ns : List Nat) (w w' : Bytes) (hw : w.length = ns.sum) (hw' : w'.length = ns.sum)
+    (h : fields (tapeOfWindow w) 0 ns = fields (tapeOfWindow w') 0 ns) : w = w' := by
+  have h1 := fields_flatten (tapeOfWindow w) 0 ns
+  have h2 := fields_flatten (tapeOfWindow w') 0 ns
+  rw [h] at h1
+  rw [h1] at h2
+  rw [← hw, seg_tapeOfWindow] at h2
+  rw [hw, ← hw', seg_tapeOfWindow] at h2
+  exact h2
+
+theorem fields_lengths (t : Tape) (pos : Nat) (ns : List Nat) : (fields t pos ns).map List.length = ns := by
+  induction ns generalizing pos with
+  | nil => rfl
+  | cons n ns ih => simp [fields, seg_length, ih]
+
+theorem seg_shift (w a : Bytes) (n : Nat) : seg (tapeOfWindow (a ++ w)) a.length n = seg (tapeOfWindow w) 0 n := by
+  simp only [seg, tapeOfWindow]
+  apply List.map_congr_left
+  intro i _
+  simp [List.getD, List.getElem?_append_right]
+
+theorem fields_shift (w a : Bytes) (ns : List Nat) (pos : Nat) :
+    fields (tapeOfWindow (a ++ w)) (a.length + pos) ns = fields (tapeOfWindow w) pos ns := by
+  induction ns generalizing pos with
+  | nil => rfl
+  | cons n ns ih =>
+    simp only [fields]
+    rw [Nat.add_assoc, ih]
+    congr 1
+    simp only [seg, tapeOfWindow]
+    apply List.map_congr_left
+    intro i _
+    simp [List.getD, List.getElem?_append_right, Nat.add_assoc]
+
+/-- surjective: every tuple of field values of the right lengths is produced by some window
+    (namely their concatenation) -/
+theorem fields_window_surjective (fs : List Bytes) :
+    fields (tapeOfWindow fs.flatten) 0 (fs.map List.length) = fs := by
+  induction fs with
+  | nil => rfl
+  | cons f fs ih =>
+    simp only [List.map_cons, fields, List.flatten_cons]
+    congr 1
+    · have := seg_tapeOfWindow (f ++ fs.flatten)
+      have h2 : seg (tapeOfWindow (f ++ fs.flatten)) 0 (f.length + fs.flatten.length) =
+          seg (tapeOfWindow (f ++ fs.flatten)) 0 f.length ++ seg (tapeOfWindow (f ++ fs.flatten)) (0 + f.length) fs.flatten.length :=
+        seg_add _ 0 _ _
+      rw [List.length_append] at this
+      rw [h2] at this
+      have hl : (seg (tapeOfWindow (f ++ fs.flatten)) 0 f.length).length = f.length := seg_length _ _ _
+      exact (List.append_inj this hl).1
+    · have := fields_shift fs.flatten f (fs.map List.length) 0
+      simp only [Nat.add_zero, Nat.zero_add] at this ⊢
+      rw [this, ih]
+
 /-! ### layouts -/
 
 theorem fieldAt_layout (pre fld rest : Bytes) : fieldAt (pre ++ fld ++ rest) pre.length fld.length = fld := by
@@ -205,6 +277,9 @@ open TinkVerif.Rand
 #print axioms field_byte
 #print axioms fields_congr
 #print axioms fields_eq_iff_windows_eq
+#print axioms fields_window_injective
+#print axioms fields_window_surjective
+#print axioms fields_lengths
 #print axioms fieldAt_layout
 #print axioms aeadField_encryptWith
 #print axioms aeadField_etm
